@@ -106,7 +106,18 @@ CASES = [
     ("motif connectivity test: isolated label accepted", "hypergraphx/motifs/utils.py",
      "    if any(len(neighbors) == 0 for neighbors in graph.values()):\n        return False", "    if any(len(neighbors) == 0 for neighbors in graph.values()):\n        return True", 0,
      ["_is_connected"], "ensures:result"),
+    ("incidence kernel: repeated nodes of a tuple counted in the column list", "hypergraphx/linalg/linalg.py", "columns.extend([j] * len(set_hye))", "columns.extend([j] * len(hye))", 0,
+     ["hye_list_to_binary_incidence"], "loop0:preserved:len"),
+    ("incidence kernel: a coordinate pair added twice", "hypergraphx/linalg/linalg.py", "        columns.extend([j] * len(set_hye))\n",
+     "        columns.extend([j] * len(set_hye))\n        columns.extend([j] * len(set_hye))\n        rows.extend(list(set_hye))\n", 0,
+     ["hye_list_to_binary_incidence"], "loop0:preserved:chosen"),
+    ("binary incidence: tuples not encoded (labels used as indices)", "hypergraphx/linalg/linalg.py", "[tuple(encoder.transform(hye)) for hye in hypergraph.get_edges()]",
+     "[tuple(hye) for hye in hypergraph.get_edges()]", 0, ["binary_incidence_matrix@mapping"], "ensures:entries"),
+    ("inverse mapping: forward table returned", "hypergraphx/utils/labeling.py", "dict(zip(mapping.transform(mapping.classes_), mapping.classes_))",
+     "dict(zip(mapping.classes_, mapping.transform(mapping.classes_)))", 0, ["get_inverse_mapping"], "ensures:dom"),
     # ---- hygiene-only and behaviour-preserving changes: nothing may fail
+    ("binary incidence: an extra unused query", "hypergraphx/linalg/linalg.py", "    encoder = hypergraph.get_mapping()\n    hye_list", "    encoder = hypergraph.get_mapping()\n    shape0 = hypergraph.num_nodes()\n    hye_list", 0,
+     ["binary_incidence_matrix@mapping", "binary_incidence_matrix"], None),
     ("motif connectivity test: neighbours queued again for a visited label (same answer)", "hypergraphx/motifs/utils.py",
      "        if node not in visited:\n            visited.add(node)\n            queue.extend(graph[node] - visited)", "        if node not in visited:\n            visited.add(node)\n        if True:\n            queue.extend(graph[node] - visited)", 0,
      ["_is_connected"], None),
